@@ -441,11 +441,12 @@ def full_read(reader, f):
             names = lod_keys(items)
             if f["fmt"] == "csv":
                 # the keys of a CSV file are its header (or the generated names), also when it has no data rows
-                if items and names != file_names(f):
-                    raise RuntimeError(f"harness: keys {names} of the unrestricted read are not the file's {file_names(f)}")
+                mismatch = (names, file_names(f)) if items and names != file_names(f) else None
                 names = file_names(f)
             info = {"type": type(full).__name__, "items": items, "names": names,
                     "key": ("LoD", tuple(tuple(sorted((k, exact(v)) for k, v in x.items())) for x in items))}
+            if f["fmt"] == "csv" and mismatch:
+                info["mismatch"] = mismatch
             info["menus"] = {n: lod_cast_menu(items, n) for n in info["names"]}
         _FULL[key] = info
     return _FULL[key]
@@ -462,6 +463,13 @@ def check_restrict(case, rec):
     rec.case((reader, file_state_key(f), repr(sel), repr(cmap)), not identity)
     rec.trans()
     want_names = list(names) if sel is None else list(sel)
+    # The check wrote the file itself, so it knows the names an unrestricted read has to return. If it does not
+    # return them (e.g. because an earlier, restricted read left something behind), "what is read" has changed.
+    truth = file_names(f) if f["fmt"] == "csv" else None
+    if info.get("mismatch") or (truth is not None and fam == "df" and list(names) != list(truth)):
+        got = info["mismatch"][0] if info.get("mismatch") else names
+        rec.violation(reader, "unrestricted-read-wrong-names", case, f"reading everything returns the names {got}, the file has {truth}")
+        return
     for n in list(want_names) + list(cmap or {}):
         if n not in names:
             raise RuntimeError(f"harness: {n!r} is not a column of the file ({names})")
@@ -546,8 +554,9 @@ CLASS_METHODS = {
 def file_names(f):
     names = [c[0] for c in f["cols"]]
     if f["fmt"] == "csv" and not f["header"]:
-        from dataiter import util
-        names = util.generate_colnames(len(names))
+        # the documented generated names a, b, c, ... - computed here, never taken from the library under test
+        import string
+        names = list(string.ascii_lowercase[:len(names)])
     return names
 
 
